@@ -44,6 +44,43 @@ def count_cases(rng, ssid=None, st=8):
     return out
 
 
+def ie_cases(rng, q=True):
+    """the element decoders called directly (libwifi_get_rsn_info / libwifi_get_wpa_info / libwifi_bss_handle_msft_tag): every
+    truncation of full elements, every string of length 0..2 over a boundary alphabet, declared counts against suites present
+    (incl. wrapping counts), optional-field boundaries (element ending after the group suite / after the pairwise list)"""
+    out = []
+    alpha = [0, 1, 2, 4, 6, 0x40, 0x80, 0xff]
+    small = [b""] + [bytes([a]) for a in alpha] + [bytes([a, b]) for a in alpha for b in alpha]
+    for b in small:
+        for k in ("rsn", "wpa", "msft"):
+            out.append("ie %s %s" % (k, hx(b)))
+    for _ in range(4 if q else 60):
+        full = F.rsn_body(rng, pairwise=F.rand_suites(rng, "rsn", rng.randrange(0, 4)), akms=F.rand_suites(rng, "rsn", rng.randrange(0, 4)))
+        for k in range(len(full) + 1):
+            out.append("ie rsn " + hx(full[:k]))
+        fullw = F.wpa_body(rng, uc=F.rand_suites(rng, "wpa", rng.randrange(0, 4)), akms=F.rand_suites(rng, "wpa", rng.randrange(0, 3)))
+        for k in range(len(fullw) + 1):
+            out.append("ie msft " + hx(fullw[:k]))
+            if k >= 4:
+                out.append("ie wpa " + hx(fullw[4:k]))
+        for typ in (0, 2, 4, 5, 255):
+            v = F.MSFT + bytes([typ]) + bytes(rng.randrange(256) for _ in range(rng.randrange(0, 12)))
+            for k in range(len(v) + 1):
+                out.append("ie msft " + hx(v[:k]))
+    wrap = [0, 1, 6, 7, 8, 255, 256, 0x3fff, 0x4000, 0x4001, 0x4006, 0x7fff, 0x8000, 0x8002, 0xc000, 0xc005, 0xfffe, 0xffff]
+    for declared in wrap:
+        for present in (0, 1, 5, 6, 7, 8):
+            pw = F.rand_suites(rng, "rsn", present)
+            b1 = F.rsn_body(rng, pairwise=pw, pw_count=declared, akms=[], ak_count=0, caps=False)
+            out.append("ie rsn " + hx(b1[:8 + 4 * present])); out.append("ie rsn " + hx(b1))
+            out.append("ie rsn " + hx(F.rsn_body(rng, akms=pw, ak_count=declared, caps=False)))
+            uc = F.rand_suites(rng, "wpa", present)
+            w1 = F.wpa_body(rng, uc=uc, uc_count=declared, akms=[], ak_count=0)
+            out.append("ie wpa " + hx(w1[4:12 + 4 * present])); out.append("ie wpa " + hx(w1[4:])); out.append("ie msft " + hx(w1))
+            out.append("ie wpa " + hx(F.wpa_body(rng, akms=uc, ak_count=declared)[4:]))
+    return out
+
+
 def gen_cases(tier, seed):
     rng = random.Random(seed)
     q = tier == "quick"
@@ -62,6 +99,7 @@ def gen_cases(tier, seed):
     n_single = len(cases)
     # counts versus suites present
     cases += count_cases(rng, ssid)
+    cases += ie_cases(rng, q)
     # truncation at every byte
     for _ in range(6 if q else 60):
         full = F.rsn_body(rng, pairwise=F.rand_suites(rng, "rsn", 2), akms=F.rand_suites(rng, "rsn", 2))
@@ -86,7 +124,7 @@ def judge(case, impl, model, spec=None):
         return ("leak", impl[-30:])
     if spec is not None and impl != spec:
         import re
-        name = "?"
+        name = ("ie_" + case.split()[1]) if case.startswith("ie ") else "?"
         for p, s in zip(impl.split(" "), spec.split(" ")):
             m = re.match(r"^([a-z_]+)=", p)
             if m:
